@@ -13,7 +13,11 @@ func init() {
 	ifmOld := "		for r.HasNext() {\n			nextItr := mf(r.Next())\n			current = Some(nextItr)\n			if nextItr.HasNext() {\n				return true\n			}\n		}\n\n		return false\n	}\n\n	return MakeIterator(\n		hasNext,\n		func() T {\n			if hasNext() {\n				return current.Get().Next()"
 	ifmBad := "		if !r.HasNext() {\n			return false\n		}\n		current = Some(mf(r.Next()))\n		return current.Get().HasNext()\n	}\n\n	return MakeIterator(\n		hasNext,\n		func() T {\n			if hasNext() {\n				return current.Get().Next()"
 	ifmGood := "		for {\n			if !r.HasNext() {\n				return false\n			}\n			current = Some(mf(r.Next()))\n			if current.Get().HasNext() {\n				return true\n			}\n		}\n	}\n\n	return MakeIterator(\n		hasNext,\n		func() T {\n			if hasNext() {\n				return current.Get().Next()"
+	lfmOld := "\tmappedHeadLazy := lazy.Call(func() fp.List[U] {\n\t\treturn fn(opt.Head())\n\t})\n\n\ttail := opt.Tail()\n\n\treturn fp.MakeList(\n\t\tfunc() fp.Option[U] {\n\t\t\theadList := mappedHeadLazy.Get()\n\n\t\t\tif headList.IsEmpty() {\n\t\t\t\treturn Head(FlatMap(tail, fn))\n\t\t\t}\n\n\t\t\treturn fp.Some(headList.Head())\n\t\t},\n\t\tfunc() fp.List[U] {\n\t\t\theadList := mappedHeadLazy.Get()\n"
+	lfmBad := "\tmappedHeadLazy := lazy.Func1(fn)\n\n\ttail := opt.Tail()\n\n\treturn fp.MakeList(\n\t\tfunc() fp.Option[U] {\n\t\t\theadList := mappedHeadLazy(opt.Head()).Get()\n\n\t\t\tif headList.IsEmpty() {\n\t\t\t\treturn Head(FlatMap(tail, fn))\n\t\t\t}\n\n\t\t\treturn fp.Some(headList.Head())\n\t\t},\n\t\tfunc() fp.List[U] {\n\t\t\theadList := mappedHeadLazy(opt.Head()).Get()\n"
+	lfmGood := "\tapplyToHead := func() fp.List[U] {\n\t\treturn fn(opt.Head())\n\t}\n\tmappedHeadLazy := lazy.Call(applyToHead)\n\n\ttail := opt.Tail()\n\n\treturn fp.MakeList(\n\t\tfunc() fp.Option[U] {\n\t\t\theadList := mappedHeadLazy.Get()\n\n\t\t\tif headList.IsEmpty() {\n\t\t\t\treturn Head(FlatMap(tail, fn))\n\t\t\t}\n\n\t\t\treturn fp.Some(headList.Head())\n\t\t},\n\t\tfunc() fp.List[U] {\n\t\t\theadList := mappedHeadLazy.Get()\n"
 	addMutants(
+		Mutant{"C16", "list-flatmap-wrapper-called-by-both-thunks", "list/list_op.go", lfmOld, lfmBad, "R-USERONCE/list.FlatMap", "lazy.Func1(fn) applied in the head and in the tail thunk: a fresh memo each time"},
 		Mutant{"C02", "traverseseq-maps-then-sequences", "try/try_traverse.go", travOld, travEager, "R-LOOPSTOP/try.TraverseSeq", "the step function runs for every element before any result is looked at"},
 		Mutant{"C20", "iterator-flatmap-single-step", "iterator.go", ifmOld, ifmBad, "R-SKIPEMPTY/fp.Iterator.FlatMap", "an empty inner iterator ends the answer"},
 		Mutant{"C10", "lesseq-negation-unswapped", "typeclass.go", lessEqOld, "func (r LessFunc[T]) LessEq(a, b T) bool {\n	return !r(a, b)\n}", "R-NEGLESS/fp.LessFunc.LessEq", "¬(a<b) is a≥b"},
@@ -23,6 +27,7 @@ func init() {
 		Mutant{"C05", "onsuccess-fast-path-falls-through", "future.go", onSuccessOld, "func (r Future[T]) OnSuccess(cb func(success T), ctx ...Executor) {\n	if r.IsCompleted() {\n		if v := r.Value(); v.IsSuccess() {\n			getExecutor(ctx...).ExecuteUnsafe(RunnableFunc(func() {\n				cb(v.Get())\n			}))\n		}\n	}\n	r.OnComplete(func(try Try[T]) {", "R-ONEDISPATCH/fp.Future.OnSuccess/cb", "fast path without return: the call-back is dispatched and registered"},
 	)
 	addSilent(
+		Mutant{"C16", "list-flatmap-thunk-bound-to-local", "list/list_op.go", lfmOld, lfmGood, "", "the memoised computation bound to a local before lazy.Call"},
 		Mutant{"C02", "traverseseq-explicit-loop-with-early-return", "try/try_traverse.go", travOld, travLoop, "", "plain loop that leaves at the first failure"},
 		Mutant{"C20", "iterator-flatmap-endless-for", "iterator.go", ifmOld, ifmGood, "", "for { … } with the exhaustion test inside"},
 		Mutant{"C10", "lesseq-negation-swapped", "typeclass.go", lessEqOld, "func (r LessFunc[T]) LessEq(a, b T) bool {\n	return !r(b, a)\n}", "", "a≤b as ¬(b<a)"},
